@@ -9,7 +9,6 @@ import (
 	"encoding/json"
 	"fmt"
 	"math/rand"
-	"sort"
 
 	chart "helm.sh/helm/v4/pkg/chart/v2"
 	chartutil "helm.sh/helm/v4/pkg/chart/v2/util"
@@ -20,8 +19,9 @@ import (
 type c20SChart struct {
 	Name     string       `json:"name"`
 	Schema   string       `json:"schema,omitempty"` // "" none | required | invalid
-	Required []string     `json:"required,omitempty"`
-	Subs     []*c20SChart `json:"subs,omitempty"`
+	Required []string               `json:"required,omitempty"`
+	Values   map[string]interface{} `json:"values,omitempty"` // this chart's own values.yaml (overrides Defaults[name])
+	Subs     []*c20SChart           `json:"subs,omitempty"`
 }
 
 type c20SchemaC struct {
@@ -58,7 +58,11 @@ func (c *c20SchemaC) malformed() bool {
 
 func (s *c20SChart) build(defaults map[string]map[string]interface{}) *chart.Chart {
 	c := &chart.Chart{Metadata: &chart.Metadata{Name: s.Name, Version: "1.0.0", APIVersion: "v2"}}
-	if d, ok := defaults[s.Name]; ok {
+	d, ok := defaults[s.Name]
+	if s.Values != nil {
+		d, ok = s.Values, true
+	}
+	if ok {
 		b, _ := json.Marshal(d)
 		var v map[string]interface{}
 		json.Unmarshal(b, &v)
@@ -89,6 +93,13 @@ func c20SchemaCorpus() []any {
 		c20Case{Kind: "schema", Schema: &c20SchemaC{Root: tree, Vals: map[string]interface{}{"a": 1.0}}},
 		c20Case{Kind: "schema", Schema: &c20SchemaC{Root: tree, Vals: map[string]interface{}{"sub": 5.0}}},
 		c20Case{Kind: "schema", Schema: &c20SchemaC{Root: tree, Defaults: map[string]map[string]interface{}{"sub": {"k": "v"}}, Vals: map[string]interface{}{}}},
+		// counter-example of C20_schema_walk_behind_coalesce_refuted: two siblings named "a", a subchart
+		// called "global": coalescing succeeds, the grandchild's table is replaced by a scalar; the
+		// walk before a1cf667 panicked here, now it is an error
+		c20Case{Kind: "schema", Schema: &c20SchemaC{Root: &c20SChart{Name: "top", Subs: []*c20SChart{
+			{Name: "a", Subs: []*c20SChart{{Name: "global", Subs: []*c20SChart{{Name: "h", Subs: []*c20SChart{{Name: "i"}}}}}}},
+			{Name: "global", Values: map[string]interface{}{"h": map[string]interface{}{"i": "five"}}},
+			{Name: "a"}}}, Vals: map[string]interface{}{}}},
 	}
 }
 
@@ -110,9 +121,17 @@ func c20GenSChart(r *rand.Rand, depth int, name string) *c20SChart {
 			s.Schema = "invalid"
 		}
 	}
+	if r.Intn(6) == 0 {
+		s.Values = map[string]interface{}{}
+		for _, k := range []string{"k", "sub", "db", "global"} {
+			if r.Intn(2) == 0 {
+				s.Values[k] = []interface{}{"own", float64(1), map[string]interface{}{"sub": "x", "db": map[string]interface{}{"k": float64(2)}}}[r.Intn(3)]
+			}
+		}
+	}
 	if depth > 0 {
 		for i := 0; i < r.Intn(3); i++ {
-			s.Subs = append(s.Subs, c20GenSChart(r, depth-1, []string{"sub", "db", "web"}[r.Intn(3)]))
+			s.Subs = append(s.Subs, c20GenSChart(r, depth-1, []string{"sub", "db", "web", "global"}[r.Intn(4)]))
 		}
 	}
 	return s
@@ -140,7 +159,7 @@ func c20GenSlotValues(r *rand.Rand, s *c20SChart, depth int) map[string]interfac
 }
 
 func c20GenSchema(r *rand.Rand) *c20SchemaC {
-	c := &c20SchemaC{Direct: r.Intn(2) == 0, Root: c20GenSChart(r, 2, "top")}
+	c := &c20SchemaC{Direct: r.Intn(2) == 0, Root: c20GenSChart(r, 3, "top")}
 	c.Vals = c20GenSlotValues(r, c.Root, 3)
 	if r.Intn(2) == 0 {
 		c.Defaults = map[string]map[string]interface{}{}
@@ -203,19 +222,25 @@ func c20CoqSChart(s *c20SChart) string {
 	return fmt.Sprintf("(SChart sch %s %s %s)", hx.CoqStr(s.Name), sch, hx.CoqList(subs))
 }
 
+func c20CoqCChart(s *c20SChart, defaults map[string]map[string]interface{}) string {
+	vals := map[string]interface{}{}
+	if d, ok := defaults[s.Name]; ok {
+		vals = d
+	}
+	if s.Values != nil {
+		vals = s.Values
+	}
+	var subs []string
+	for _, sub := range s.Subs {
+		subs = append(subs, c20CoqCChart(sub, defaults))
+	}
+	return fmt.Sprintf("(mkChart %s %s %s)", hx.CoqStr(s.Name), hx.CoqValMap(vals), hx.CoqList(subs))
+}
+
 func c20CoqSchema(c *c20SchemaC, obs c20Obs) string {
-	names := make([]string, 0, len(c.Defaults))
-	for n := range c.Defaults {
-		names = append(names, n)
-	}
-	sort.Strings(names)
-	var ds []string
-	for _, n := range names {
-		ds = append(ds, hx.CoqPair(hx.CoqStr(n), hx.CoqValMap(c.Defaults[n])))
-	}
 	vals := c.Vals
 	if vals == nil {
 		vals = map[string]interface{}{}
 	}
-	return fmt.Sprintf("CSchema %s %s %s %s %s", hx.CoqBool(c.Direct), c20CoqSChart(c.Root), hx.CoqList(ds), hx.CoqValMap(vals), c20Cls(obs.Class))
+	return fmt.Sprintf("CSchema %s %s %s %s %s", hx.CoqBool(c.Direct), c20CoqSChart(c.Root), c20CoqCChart(c.Root, c.Defaults), hx.CoqValMap(vals), c20Cls(obs.Class))
 }
